@@ -83,7 +83,7 @@ def gen(rng, tier, dist):
             # every 10th application also receives messages whose states the file does not carry: +-inf
             # on float ports, a symbol outside the map on a scalar option port (finding classes, see classify)
             exotic = 0.15 if c % 10 == 3 else 0.0
-            ops, mops = sc.gen_ops(rng, ref, nops, exotic=exotic)
+            ops, mops = sc.gen_ops(rng, ref, nops, exotic=exotic, fill=0.3)
             if exotic:
                 dist["save with non-finite floats / unknown option symbols among the messages"] = \
                     dist.get("save with non-finite floats / unknown option symbols among the messages", 0) + 1
